@@ -143,3 +143,23 @@ Definition file_diff (a b : option file) : nat * nat :=
    (Reason is copied from S together with them; Value is ignored) *)
 Definition errors_is (es : list (bytes * bytes * bool)) (path ty : bytes) : bool :=
   existsb (fun e => let '(p, t, _) := e in bytes_eqb p path && bytes_eqb t ty) es.
+
+(* ---------- from a certificate to a theorem about the emitted code ---------- *)
+From GV Require Import Gen.Guard Gen.GenProofs2 Gen.GenProofs3 Gen.GenExact GoLite.CtxProofs GoLite.Safety.
+
+(* If the file that the rebuilt govalid emitted (translated: p) equals the generator model's file for the
+   declaration d - which is what a per-run certificate cert_i establishes by computation in the kernel - then the
+   report-exactness theorem holds for THAT file, for every well-typed receiver value. *)
+Theorem validator_sound ipc tab d (p : option file) :
+  opt_file_eqb p (gen_file tab d) = true ->
+  forall f, p = Some f -> in_guard tab d = true -> forall root, wt_struct d root ->
+  let o := exec_file ipc background f (Some root) in
+  o_res o = RStuck \/
+  (report_of (o_res o) = Some (map projw (expected ipc tab d root)) /\
+   (o_res o = RNil <-> expected ipc tab d root = []) /\
+   s_gw (o_st o) = [] /\ s_allocs (o_st o) = 2 * length (expected ipc tab d root)).
+Proof.
+  intros E f -> G root W. unfold opt_file_eqb in E.
+  destruct (gen_file tab d) as [g|] eqn:Hg; [|discriminate E].
+  apply file_eqb_eq in E. subst g. exact (gen_exact ipc tab d f root G Hg W).
+Qed.
